@@ -30,6 +30,7 @@ import lines_impl
 from translate import lines as tr_lines
 
 PROP = "C16"
+END_INCLUSIVE = [False]  # set from the translated get_line_range_for_node in run()
 IGNORE = c11.IGNORE
 BASE_CFG = {"cli_on": [], "cli_off": ["unused_ignore", "bare_ignore"], "top_off": [], "override": None, "module": "pa.pb"}
 UNUSED_ON_CFG = {"cli_on": ["unused_ignore"], "cli_off": ["bare_ignore"], "top_off": [], "override": None, "module": "pa.pb"}
@@ -521,6 +522,11 @@ def run(tier: str, replay: str | None = None):
             exe = lib.ocaml_build("c16", "theories/Extract/ExtractC16.v", "c16_driver.ml")
         except RuntimeError as ex:
             rep.violation({"kind": "broken-obligation", "theorem": "extraction of the C16 model", "detail": str(ex)[-1500:]}, no_failing_input=True)
+    try:
+        from translate import astcopy as _ac
+        END_INCLUSIVE[0] = _ac.range_end_inclusive(str(lib.REPO))
+    except Exception:
+        pass
     names = lines_impl.code_names()
     static_names = tr_lines.read_codes(str(lib.REPO))[1]
     code_idx = {n: i for i, n in enumerate(static_names)}
@@ -709,6 +715,7 @@ def run(tier: str, replay: str | None = None):
     # ---- part B: node replacements ------------------------------------------
     apply_lines, apply_meta = [], []
     range_lines, range_meta = [], []
+    pending_range_findings = []  # (index into range_meta, finding id, violation payload)
     for (tcode, lines), r in zip(fix_cases, res_b):
         if r["error"] and not r["steps"]:
             harness_problems.append(f"fix case {tcode}: {r['error'][:300]}")
@@ -780,7 +787,7 @@ def run(tier: str, replay: str | None = None):
                         for ch in ast.walk(st):
                             e = getattr(ch, "end_lineno", None)
                             if e is not None:
-                                last0 = max(last0, e)
+                                last0 = max(last0, e + (1 if END_INCLUSIVE[0] else 0))
                             elif hasattr(ch, "lineno"):
                                 last0 = max(last0, ch.lineno)
                         if first == min(ap["del"]):
@@ -811,6 +818,17 @@ def run(tier: str, replay: str | None = None):
                             hist["attributed_" + fid2] += 1
                             rep.known(fid2, known[fid2]["what"])
                             continue
+                # guard of C16-unindented-continuation-line: the deleted range stops before the last line of the
+                # statement that starts on its first line (and the extracted line_range agrees: checked below)
+                if ap and ap["del"] and any("parse" in p for p in problems) and _parses(text):
+                    first = min(ap["del"])
+                    ends = [st.end_lineno for st in ast.walk(ast.parse(text)) if isinstance(st, ast.stmt)
+                            and min([st.lineno] + [d.lineno for d in getattr(st, "decorator_list", [])]) == first]
+                    fid3 = "C16-unindented-continuation-line"
+                    if ends and max(ap["del"]) < max(ends) and fid3 in known:
+                        pending_range_findings.append((len(range_meta) - 1, fid3, {"kind": "failing-input", "what": f"node replacement ({code}), step {si + 1}",
+                                                      "input": {"code": tcode, "fix_lines": lines}, "problems": problems, "before": text, "observed": new}))
+                        break
                 # faithful model of remove_node: the text is the old one minus exactly the statement's lines
                 predicted = None
                 if facts and facts["exact"]:
@@ -846,6 +864,16 @@ def run(tier: str, replay: str | None = None):
                     range_mismatch.append({"text": text, "deleted": dels, "model_ranges": got, "candidates": cands})
         except RuntimeError as ex:
             rep.violation({"kind": "broken-correspondence", "correspondence": "Gen.RangeGen.line_range vs get_line_range_for_node", "detail": str(ex)[-1500:]}, no_failing_input=True)
+
+    bad_ranges = {id(m) for m in ()}
+    mismatch_texts = {m["text"] for m in range_mismatch}
+    for idx, fid3, payload in pending_range_findings:
+        agrees = exe is not None and 0 <= idx < len(range_meta) and range_meta[idx][0] not in mismatch_texts
+        if agrees:
+            hist["attributed_" + fid3] += 1
+            rep.known(fid3, known[fid3]["what"])
+        else:
+            failing.append(payload)
 
     # ---- report ------------------------------------------------------------
     for f in failing[:10]:
